@@ -1,10 +1,89 @@
 /-
 C03 — shadowing is reported exactly when a visible same-name variable exists.
-Full statement needs the resolution equivalence of C01 (pending); proved here for all scope tables.
+
+Proved here, for every chunk:
+* `C03_shadows` — the scope-stack machine of `Scope/Core.lean` records for every declaration (local,
+  parameter, loop variable, local function, implicit `self`) as `shadowed` exactly the local declaration
+  that Lua's scoping rules make visible under the same name at that point (`Spec.resolve`'s
+  `visibleSameName`; a global the file assigns is not a declaration), as multisets;
+* `C03_report_iff` — hence the lint over the machine's log reports (declaration, earlier declaration)
+  iff the resolver finds a visible same-name local there and the name is neither matched by the ignore
+  pattern nor `...` — for every ignore predicate.
+The machine's declaration log is compared with the real `ScopeManager.variables[*].shadowed` on every
+program of the correspondence run.  `C03_lint_sound` / `C03_lint_complete` (below) are the same
+statement one level up: what `shadowing.rs` does with the tables, for all tables of the full model.
+The same-statement corner (`local x, x = 1, 2`: the second `x` re-uses the name of the first, which Lua
+does not yet consider in scope) is reported by selene; the specification records it the same way and
+flags it `sameStatement`, the three-way check accepts either answer there.
 -/
 import Selene.Scope.Lints
+import Selene.Props.C01
 namespace Selene.Props.C03
 open Selene.Scope Selene.Lua
+
+/-- **C03 (shadowed = the visible same-name local).** For every chunk and every name filter, the
+(declaration, shadowed declaration) pairs the machine records are — as a multiset — the declarations
+Lua's scoping rules give, each with the local declaration visible under its name just before. -/
+theorem C03_shadows [Core.NameFilter] (b : Block) :
+    (Core.analyse b).shadows.Perm (SpecProof.shadows (Spec.resolve b)) := by
+  rw [← CoreProof.log_shadows, ← SpecProof.log_shadows]
+  exact (C01.C01_log b).filterMap _
+
+/-- the `shadowing` lint over the machine's log: one report per kept declaration that shadows a local -/
+def shadowingReports [Core.NameFilter] (σ : Core.St) : List (Nat × Nat) :=
+  σ.shadows.filterMap fun p => p.2.map fun s => (p.1, s)
+
+/-- the name filter of `shadowing.rs`: not matched by the ignore pattern, not `...` -/
+def lintFilter (ignore : String → Bool) : Core.NameFilter := ⟨fun n => !ignore n && n != "..."⟩
+
+/-- **C03 (reported exactly when a visible same-name local exists).** For every chunk and every ignore
+predicate: `(t, s)` is reported — declaration token `t`, secondary label `s` — iff Lua's scoping rules
+say that `t` declares a name under which the local declared at `s` is visible at that point, and the
+name is neither ignored nor `...`. -/
+theorem C03_report_iff (ignore : String → Bool) (b : Block) (t s : Nat) :
+    (t, s) ∈ @shadowingReports (lintFilter ignore) (@Core.analyse (lintFilter ignore) b) ↔
+      ∃ d ∈ (Spec.resolve b).decls, d.tok = t ∧ d.visibleSameName.map (·.1) = some s ∧
+        ignore d.name = false ∧ d.name ≠ "..." ∧ d.kind ≠ .varargParam := by
+  letI := lintFilter ignore
+  unfold shadowingReports
+  simp only [List.mem_filterMap]
+  constructor
+  · rintro ⟨⟨t', o⟩, hmem, hsome⟩
+    rw [(C03_shadows b).mem_iff] at hmem
+    simp only [SpecProof.shadows, List.mem_map, List.mem_filter] at hmem
+    obtain ⟨d, ⟨hd, hk⟩, heq⟩ := hmem
+    simp only [Prod.mk.injEq] at heq
+    obtain ⟨h1, h2⟩ := heq
+    subst h1 h2
+    cases hv : d.visibleSameName with
+    | none => simp [hv] at hsome
+    | some v =>
+      simp only [hv, Option.map_some, Option.some.injEq, Prod.mk.injEq] at hsome
+      have hk' : (d.kind != Spec.DeclKind.varargParam) = true ∧ (!ignore d.name && d.name != "...") = true := by
+        have hkeep : (Core.NameFilter.keep d.name) = (!ignore d.name && d.name != "...") := rfl
+        rw [hkeep] at hk
+        simpa using hk
+      refine ⟨d, hd, hsome.1, by rw [hv]; simp [hsome.2], ?_, ?_, ?_⟩
+      · have := hk'.2; simp only [Bool.and_eq_true, Bool.not_eq_true', bne_iff_ne] at this; exact this.1
+      · have := hk'.2; simp only [Bool.and_eq_true, Bool.not_eq_true', bne_iff_ne] at this; exact this.2
+      · simpa using hk'.1
+  · rintro ⟨d, hd, h1, h2, h3, h4, h5⟩
+    refine ⟨(t, some s), ?_, by simp⟩
+    rw [(C03_shadows b).mem_iff]
+    simp only [SpecProof.shadows, List.mem_map, List.mem_filter]
+    refine ⟨d, ⟨hd, ?_⟩, by simp [h1, h2]⟩
+    have hkeep : (Core.NameFilter.keep d.name) = (!ignore d.name && d.name != "...") := rfl
+    rw [hkeep]
+    simp [h3, h4, h5]
+
+/-- non-vacuity: `local x; do local x end` — the inner `x` (token 4) is reported with the outer one (1) -/
+example :
+    let t (i : Nat) (s : String) : Tok := ⟨i, s⟩
+    let b : Block := .mk none
+      (.cons (.localAssign ⟨0, 1⟩ [t 1 "x"] .nil)
+        (.cons (.do_ ⟨2, 5⟩ (.mk none (.cons (.localAssign ⟨3, 4⟩ [t 4 "x"] .nil) .nil) .none)) .nil)) .none
+    @shadowingReports (lintFilter fun _ => false) (@Core.analyse (lintFilter fun _ => false) b) = [(4, 1)] := by
+  decide
 
 /-- **C03 (lint soundness over the tables).** Every `shadowing` diagnostic names a variable whose
 recorded `shadowed` entry is a *declared* variable (not a global the file assigns), points its
